@@ -265,3 +265,23 @@ func (ss *segmentStack) isEmpty() bool {
 	}
 	return true
 }
+
+// hasMergeOps returns true when a segment of this stack, or of the
+// stacks of its child collections, holds (or might hold) a merge
+// operation that is still unresolved.
+func (ss *segmentStack) hasMergeOps() bool {
+	for _, seg := range ss.a {
+		basic, ok := seg.(*segment)
+		if !ok || basic.totOperationMerge > 0 {
+			return true
+		}
+	}
+
+	for _, childSegStack := range ss.childSegStacks {
+		if childSegStack.hasMergeOps() {
+			return true
+		}
+	}
+
+	return false
+}
